@@ -1,8 +1,8 @@
 package main
 
 import (
-	"go/token"
 	"fmt"
+	"go/token"
 	"go/types"
 	"sort"
 	"strings"
